@@ -9,9 +9,10 @@ Conventions
   code as a zero-noise amplifier with NF = `float('-inf')`); `db2linE none = 0`.
 * frequencies and slot widths are integer Hz (`Nat`): the band filter is decided exactly; they are cast to
   `α` where the code computes with them.
-* `Edfa.effective_gain` is *state*: `interpol_params` overwrites it with the clamped value, so the "set"
-  argument of `effGain` on a later call of the same object is the value left by the previous call
-  (`callSeq`).
+* `Edfa.effective_gain` is *state*, but since repair 37e30883 every call clamps from the SET gain
+  (`callGains`); before it `interpol_params` clamped the attribute with itself, so the "set" argument of
+  `effGain` on a later call of the same object was the value left by the previous call (`callSeq`, kept as
+  the counter-model of the repaired defect).
 -/
 namespace Gnpy.Edfa
 
@@ -41,7 +42,12 @@ def c50G : α := ((50000000000:Nat) : α)
 /-- `self.effective_gain = min(self.effective_gain, self.params.p_max - self.pin_db)` -/
 def effGain (set pmax pinDbm : α) : α := smin set (pmax - pinDbm)
 
-/-- the gain state after a sequence of calls with total input powers `pins` (dBm) -/
+/-- the gains applied by one amplifier object to a sequence of spectra with total input powers `pins` (dBm): every
+call clamps from the set gain -/
+def callGains (set pmax : α) (pins : List α) : List α := pins.map (effGain set pmax)
+
+/-- COUNTER-MODEL (behaviour before repair 37e30883): the gain state after a sequence of calls when the clamped value
+is written back over the set gain -/
 def callSeq (set pmax : α) : List α → α
   | [] => set
   | p :: ps => callSeq (effGain set pmax p) pmax ps
